@@ -72,6 +72,8 @@ func (o Op) String() string {
 		return fmt.Sprintf("SetThrSinks(%s,%d)", o.ET, o.V)
 	case "reopen":
 		return "Reopen"
+	case "newbroker":
+		return fmt.Sprintf("NewBroker(nodeDeny=%v,pipelineDeny=%v)", o.V&1 != 0, o.V&2 != 0)
 	}
 	return o.K
 }
@@ -198,6 +200,19 @@ func (x *Exec) Apply(op Op) Result {
 	_ = ctx
 	var r Result
 	switch op.K {
+	case "newbroker":
+		// only meaningful as the first call of a history: the Broker is built with policy options of its own, which
+		// are documented as accepted and not applied (registrations without an option stay AllowOverwrite)
+		var opts []eventlogger.Option
+		if op.V&1 != 0 {
+			opts = append(opts, eventlogger.WithNodeRegistrationPolicy(eventlogger.DenyOverwrite))
+		}
+		if op.V&2 != 0 {
+			opts = append(opts, eventlogger.WithPipelineRegistrationPolicy(eventlogger.DenyOverwrite))
+		}
+		if b, err := eventlogger.NewBroker(opts...); err == nil {
+			x.B = b
+		}
 	case "regnode":
 		x.ninst++
 		if op.Reuse && x.Last[op.N] != nil && x.Closes(x.Last[op.N]) == 0 {
